@@ -6,7 +6,7 @@ PROP = dict(
     required_theorems=["C01_step_safe", "C01_step_post_ret", "C01_compile_safe_F0", "C01_depth_unsafe_fault"],
     harness_bin="c01",
     mismatch_is_violation=True,
-    rule="coverage-guided families (harness/src/bg9cov.rs, Rust oracles, every program under the budgets {1000,1,2,3,7,100}; a host panic or internal error is a failing input): 40 byte-intrinsic programs (string_count_bytes / string_nth_byte by name, as a function value, in operand position and inside an array literal, on ASCII and multi-byte strings, indices in range, = len, > len, negative, i64::MIN/MAX: out of range is the documented array-out-of-bounds error after exactly the expected output); intrinsics called by name and as function values at several element types incl. array<void> (D88), channel_read/channel_write on channel<void> (D89), an error inside an intrinsic wrapper (D92); void struct field as assignment target; frames of 16383 / 16385 / 32767 slots (D90); a generic instantiated at never; the former VM type faults as hard regression programs: payload variant without arguments (D87: diagnostic), refutable literal / variant sub-patterns in let and for (D96: diagnostic), or-patterns in an un-annotated let (D97: diagnostic when ill-typed, 3/4 when well-typed), output type of a constrained type variable (D98: diagnostic), the D21 witnesses (break/continue with pending operands: block, void tuple component, nested for, call argument, `..` chain, array / struct / unary-minus / match operands, loop inside a lambda); product template: match on tuples, a struct and multi-field variants with void components in every position (trailing void, several voids), >= 2 arms where an earlier arm fails on a refutable sub-pattern, match in operand position with caller locals, expected output fixed in the harness, all six budgets; string templates: quick 90 / thorough 1500 programs with all six string comparison operators on designed pairs (equal, proper prefix either way, common prefix then smaller/greater byte, no common prefix, empty; every pair x operator at least once) as call arguments, under ==, in if conditions, under and/or, each followed in the same thread by further string operations on fresh temporaries, expected output computed byte-wise in the harness, run under all six budgets; search: quick 6x70 / thorough 6x2000 generated programs (tiers F0-F3 and two nesting streams with tasks, lambdas, loops, "
+    rule="pending-jump family (harness/src/bg9cov.rs, 397 programs quick / 794 thorough): a jump-carrying block `{ if c { break|continue } else { }; v }` as the operand of every construct where values wait on the operand stack or are pushed/consumed by hand (binary operators at int/float/string/bool, unary minus on int AND float, or/and, if, match scrutinee/arms, call/method/function-value arguments incl. void ones, constructors, index and field assignment forms on arrays and user Index, compound assignments, loop heads of inner loops, lambdas, array literals beyond 65535 elements) inside while / for-array / for-range, nested in `100 + { loop; acc }`: a host panic, an internal error or a printed value different from the Rust oracle is a failing input; coverage-guided families (harness/src/bg9cov.rs, Rust oracles, every program under the budgets {1000,1,2,3,7,100}; a host panic or internal error is a failing input): 40 byte-intrinsic programs (string_count_bytes / string_nth_byte by name, as a function value, in operand position and inside an array literal, on ASCII and multi-byte strings, indices in range, = len, > len, negative, i64::MIN/MAX: out of range is the documented array-out-of-bounds error after exactly the expected output); intrinsics called by name and as function values at several element types incl. array<void> (D88), channel_read/channel_write on channel<void> (D89), an error inside an intrinsic wrapper (D92); void struct field as assignment target; frames of 16383 / 16385 / 32767 slots (D90); a generic instantiated at never; the former VM type faults as hard regression programs: payload variant without arguments (D87: diagnostic), refutable literal / variant sub-patterns in let and for (D96: diagnostic), or-patterns in an un-annotated let (D97: diagnostic when ill-typed, 3/4 when well-typed), output type of a constrained type variable (D98: diagnostic), the D21 witnesses (break/continue with pending operands: block, void tuple component, nested for, call argument, `..` chain, array / struct / unary-minus / match operands, loop inside a lambda); product template: match on tuples, a struct and multi-field variants with void components in every position (trailing void, several voids), >= 2 arms where an earlier arm fails on a refutable sub-pattern, match in operand position with caller locals, expected output fixed in the harness, all six budgets; string templates: quick 90 / thorough 1500 programs with all six string comparison operators on designed pairs (equal, proper prefix either way, common prefix then smaller/greater byte, no common prefix, empty; every pair x operator at least once) as call arguments, under ==, in if conditions, under and/or, each followed in the same thread by further string operations on fresh temporaries, expected output computed byte-wise in the harness, run under all six budgets; search: quick 6x70 / thorough 6x2000 generated programs (tiers F0-F3 and two nesting streams with tasks, lambdas, loops, "
          "all assignment forms; every fifth program with large integer literals) and the repository corpus (the ~190 raw string "
          "literals of abra_core/tests/integration/e2e_bytecode.rs extracted at run time, minus those declaring #host functions), each "
          "checker-accepted program compiled and run under every step budget in {1,2,3,7,100,1000}: a host panic, an internal(...) error "
